@@ -39,8 +39,8 @@ Print Assumptions c16_compiled_trace_is_a_reading.
 Definition cl (c : N) : re := Cls (N.shiftl 1 c).
 Definition w_ab : re := Seq (cl 97) (cl 98).
 Example c16_example_restart :
-  feed false false 5 [FW w_ab (cl 98)] 97%N = RCons [FW w_ab (cl 98)] /\
-  feed false false 5 [FW w_ab (cl 98)] 98%N = RRet (Some []) RDone [] false /\
-  feed false false 5 [FW w_ab w_ab] 120%N = RCons [FW w_ab w_ab].
+  feed false 0 5 [FW w_ab (cl 98)] 97%N = RCons [FW w_ab (cl 98)] /\
+  feed false 0 5 [FW w_ab (cl 98)] 98%N = RRet (Some []) RDone [] false /\
+  feed false 0 5 [FW w_ab w_ab] 120%N = RCons [FW w_ab w_ab].
 Proof. vm_compute. repeat split; reflexivity. Qed.
 Definition byte_syms : list sym := map N.of_nat (seq 0 256).
